@@ -3,9 +3,9 @@ import OntVerif.Util.Hex
 /-!
 Line driver for C40.  `Q <op>;<op>;…` on a ledger that holds the genesis block:
 `b<n>` commit a block with n fresh transactions, `x<k>` commit k empty blocks, `d` commit a block that contains the most recently
-committed transaction once more, `r` restart.  Output: `n=<height>` then for every restart and for the end of the line
+committed transaction once more, `r` restart, `s<n>` header sync (AddHeader of the next block's header, report, then commit of that block).  Output: `n=<height>` then for every restart and for the end of the line
 `w=<first>,<last>,<count>` (header index window) and `ok=<heights on which all five queries return the committed block>/<heights>`,
-`tx=<transactions found with their block's height>/<transactions>`.
+`tx=<transactions found with their block's height>/<transactions>`, `bd=` the boundary height cur-MAX (ok/bad, `+cached` when inside the window).
 -/
 namespace OntVerif.Driver.C40
 open OntVerif.Util OntVerif.Model.BlockStore
@@ -28,7 +28,17 @@ def report (s : S) : String :=
   let okN := (s.blocks.filter (blockOK s.l)).length
   let txAll := s.blocks.foldl (fun n b => n + b.txs.length) 0
   let txOK := s.blocks.foldl (fun n b => n + (b.txs.filter fun t => getTransaction s.l (P.hT t) == some (t, b.hdr.height)).length) 0
-  s!"w={c.first},{c.last},{c.idx.length} ok={okN}/{s.blocks.length} tx={txOK}/{txAll}"
+  let cur := s.l.curHeight
+  let bd :=
+    if cur ≥ OntVerif.Gen.LedgerQuery.headerIndexMaxSize then
+      let h := cur - OntVerif.Gen.LedgerQuery.headerIndexMaxSize
+      match s.blocks.find? (fun b => b.hdr.height == h) with
+      | some b =>
+        (if getBlockHash s.l h == some (P.hH b.hdr) && getBlockByHeight s.l h == some b then "ok" else "bad")
+          ++ (if h ≥ c.first then "+cached" else "")
+      | none => "bad"
+    else "-"
+  s!"w={c.first},{c.last},{c.idx.length} ok={okN}/{s.blocks.length} tx={txOK}/{txAll} bd={bd}"
 
 def commitB (s : S) (txs : List Tx) : S :=
   let h := s.l.curHeight + (if s.blocks.isEmpty then 0 else 1)
@@ -48,6 +58,15 @@ def doOp (s : S) (op : String) : Option (S × List String) :=
     match s.lastTx with
     | some t => some (commitB s [t], [])
     | none => some (commitB s [], [])
+  else if op.startsWith "s" then
+    -- header sync: the next block's header is indexed first (report in that state), then the block is committed
+    (op.drop 1).toNat?.bind fun n =>
+      let txs := (List.range n).map (· + s.nextTx)
+      let s := { s with nextTx := s.nextTx + n }
+      let b : Block := ⟨⟨s.l.curHeight + 1, txs.length⟩, txs⟩
+      match step P s.l (.syncHeader (P.hH b.hdr)) with
+      | none => none
+      | some l1 => some (commitB { s with l := l1 } txs, [report { s with l := l1 }])
   else if op.startsWith "b" then
     (op.drop 1).toNat?.map fun n =>
       (commitB { s with nextTx := s.nextTx + n } ((List.range n).map (· + s.nextTx)), [])
